@@ -194,14 +194,13 @@ theorem hyphen_none_of_op {s : List Char} (c : Char) (t : List Char) (hs : s = c
     (hc : c = '>' ∨ c = '<') : hyphen s = none := by
   have hpv : partialVersion s = none := by
     apply partialVersion_none_of_head c t hs <;> rcases hc with rfl | rfl <;> decide
-  unfold hyphen
-  simp only [hpv]
   have : blanks1 s = none := by
     subst hs
     unfold blanks1
     have : isBlank c = false := by rcases hc with rfl | rfl <;> decide
     simp [this]
-  rw [this]
+  unfold hyphen optPartial hyphenRest
+  simp only [hpv, this]
 
 /-- the full partial of a version -/
 def fullPartial (v : Version) : Partial := ⟨some v.major, some v.minor, some v.patch, v.pre, v.build⟩
@@ -275,7 +274,7 @@ theorem simple_exact (v : Version) (hc : C12.canon v) (rest : List Char) (hr : A
   obtain ⟨d, t, hd, hdig⟩ := render_head_digit v
   have hpv := partialVersion_render v hc rest hr.compFollow.versionFollow
   have hhy : hyphen (v.render ++ rest) = none := by
-    unfold hyphen
+    unfold hyphen optPartial hyphenRest
     simp only [hpv, hr.blanks1_none]
   have hprim : primitive (v.render ++ rest) = none := by
     unfold primitive
